@@ -253,6 +253,53 @@ func runC14(env *Env, data map[string]any) *Outcome {
 		}
 		o.Nontrivial = hasValue && len(keys) >= 3
 		o.Sample = map[string]any{"text": short(text, 160), "tags": len(keys)}
+		// the command line's `--tag NAME[=VALUE]`: names compared case-insensitively, values case-sensitively
+		if len(keys) > 0 && impl != "panic" {
+			k := keys[len(text)%len(keys)]
+			eq := strings.Index(k, "=")
+			name, value := k[:eq], k[eq+1:]
+			ascii := true
+			for _, c := range name {
+				if c > 127 {
+					ascii = false
+				}
+			}
+			if ascii && len(text)%2 == 0 {
+				name = strings.ToUpper(name)
+			}
+			plain := true
+			for _, c := range value {
+				if !isNameRune(c) {
+					plain = false
+				}
+			}
+			arg := ""
+			switch {
+			case value == "":
+				arg = name
+			case plain:
+				arg = name + "=" + value
+			case !strings.Contains(value, "\""):
+				arg = name + "=\"" + value + "\""
+			case !strings.Contains(value, "'"):
+				arg = name + "='" + value + "'"
+			}
+			if arg != "" {
+				file := writeFile(env, "c14.klg", text)
+				res := runCLI(env, CLIOpts{Now: mkTime(2021, 3, 4, 12, 0)}, "total", "--decimal", "--no-style", "--no-warn", "--tag", arg, file)
+				o.Evals++
+				got := -1 << 40
+				for _, m := range reTotalLine.FindAllStringSubmatch(res.Stdout, -1) {
+					if m[1] == "Total" {
+						fmt.Sscanf(m[2], "%d", &got)
+					}
+				}
+				if res.Panic != "" || res.Code != 0 || got != want[k].total {
+					o.Findings = append(o.Findings, Finding{Kind: "D", What: fmt.Sprintf("`klog total --tag %s` is not the total of the entries that carry the tag (%d)", arg, want[k].total), Impl: short(res.Stdout+res.Err+res.Panic, 300)})
+				}
+				o.Tags = append(o.Tags, "cli-tag")
+			}
+		}
 	}
 	return o
 }
